@@ -87,8 +87,11 @@ def r20_1(ctx):
                     px = PX(repo, models=models, inline=same_class())
                     px.inline.root = f
 
+                    # keyword arguments of the wrapped method may be called anything - also what a helper of the proxy calls its own parameters
+                    call_kw = {"kw": Sym("k1"), "name": Sym("k_name"), "func": Sym("k_func"), "loop": Sym("k_loop"), "call": Sym("k_call")}
+
                     def entry():
-                        return px.do_call(wrapper, "wrapper", [Sym("a1")], {"kw": Sym("k1")}, None, None, False)
+                        return px.do_call(wrapper, "wrapper", [Sym("a1")], dict(call_kw), None, None, False)
 
                     for p in px._run(entry):
                         ctx.paths += 1
@@ -112,6 +115,8 @@ def r20_1(ctx):
                         elif same:
                             if len(direct) != 1 or rct or cst or p.terminal != "return" or p.value != direct[0].extra:
                                 bad = f"call from the owner's loop: direct calls {len(direct)}, dispatches {len(rct) + len(cst)}, returns {p.value!r}"
+                            elif direct[0].what == "func" and (tuple(direct[0].args) != (Sym("a1"),) or dict(direct[0].kwargs) != call_kw):
+                                bad = f"call from the owner's loop: the method is called with {direct[0].args!r} {direct[0].kwargs!r}, not with the caller's arguments"
                         elif closed:
                             done_ = [e for e in rct + cst if not str(e.extra).startswith("raises")]
                             # (calling a coroutine function only creates a coroutine object: nothing of the method has run)
@@ -143,11 +148,15 @@ def r20_1(ctx):
                                 for q in px._run(entry2):
                                     ran = [e for e in q.events if e.kind == "call" and e.what == "func"]
                                     if len(ran) != 1:
-                                        bad = f"the queued closure invokes the method {len(ran)} times"
+                                        bad = f"the queued closure invokes the method {len(ran)} times ({q.terminal} {q.value if q.terminal == 'raise' else ''})"
+                                    elif tuple(ran[0].args) != (Sym("a1"),) or dict(ran[0].kwargs) != call_kw:
+                                        bad = f"the queued closure calls the method with {ran[0].args!r} {ran[0].kwargs!r}, not with the caller's arguments"
                                     elif (result is None) != (q.terminal == "return"):
                                         bad = f"queued plain method returning {result!r}: closure {q.terminal}s {q.value if q.terminal == 'raise' else ''} (a value must raise TypeError)"
-                        if not bad and not same and not closed:
-                            part = [e for e in ev if e.what.endswith("partial")]
+                        if not bad:
+                            for e in ev:
+                                if e.what == "func" and (tuple(e.args) != (Sym("a1"),) or dict(e.kwargs) != call_kw):
+                                    bad = f"the wrapped method is called with {e.args!r} {e.kwargs!r}, not with the caller's arguments"
                         if bad:
                             ctx.violation(f"dispatch:{key}", f"{key} (fetched on the {fetch_on} loop): {bad}", func=f, trace=p.trace(14), construct=key)
                         else:
